@@ -136,7 +136,7 @@ func orderClass(c string, k okey) string {
 		return c
 	}
 	if n := namedOf(k.typ); n != nil {
-		switch n.Obj().Name() {
+		switch nm(n.Obj()) {
 		case "fileNode":
 			return "memfs.fileNode.mu"
 		case "symlinkNode":
